@@ -98,6 +98,31 @@ func main() {
 			}
 			units = append(units, &unitRun{Unit: unit, Fc: fc})
 		}
+		// lemmas of the contract file: proved once per property that has a function contract in this package
+		// (they are available as facts to every function of the package, so they must be discharged here)
+		var lemmaProps []string
+		var lemmaMode, lemmaFn string
+		for _, name := range pc.Order {
+			fc := pc.Funcs[name]
+			if *prop == "" || contains(fc.Props, *prop) {
+				lemmaProps = fc.Props
+				if lemmaFn == "" {
+					lemmaFn, lemmaMode = name, fc.Mode
+				}
+			}
+		}
+		if lemmaFn != "" {
+			for _, a := range pc.Axioms {
+				if !a.Lemma {
+					continue
+				}
+				unit := d + ":lemma:" + a.Name
+				if *unitF != "" && !strings.Contains(unit, *unitF) {
+					continue
+				}
+				units = append(units, &unitRun{Unit: unit, Fc: &FuncContract{Name: "lemma:" + a.Name, Props: lemmaProps, Mode: lemmaMode, Pkg: d, Loops: map[int]*LoopSpec{}, Notes: []string{lemmaFn}}})
+			}
+		}
 	}
 	if *list {
 		for _, u := range units {
@@ -231,6 +256,19 @@ func runUnit(w *World, u *unitRun, tmp string, quickT, slowT int, verbose bool) 
 	dir := u.Unit[:strings.Index(u.Unit, ":")]
 	pc := w.contracts[dir]
 	if u.Fc.Trusted != "" {
+		return
+	}
+	if strings.HasPrefix(u.Fc.Name, "lemma:") {
+		// a lemma of the contract file: no code, one obligation; a function of the package supplies the type scope
+		g := NewGen(w, w.findFunc(dir, u.Fc.Notes[0]), u.Fc, pc)
+		g.unit = u.Unit
+		u.G = g
+		if err := g.RunLemma(strings.TrimPrefix(u.Fc.Name, "lemma:")); err != nil {
+			u.Err = err
+			return
+		}
+		u.GenMs = time.Since(t0).Milliseconds()
+		u.Results = solveAll(tmp, g, g.Obligations(), quickT, slowT)
 		return
 	}
 	fn := w.findFunc(dir, u.Fc.Name)
